@@ -64,7 +64,6 @@ variables
     closeCalled = FALSE, closed = FALSE, how = "none", hows \in HowSets,
     chg = 0, envn = 0, ncl = 0,
     closedfds = {},                                \* user fds closed by the application
-    gone = [k \in Kinds |-> {}],                   \* ready during the current select, closed since
     crashed = FALSE,                               \* selector thread died with an exception
     myargs = NoArgs, must = [k \in Kinds |-> {}],  \* selector thread locals
     res = [rs |-> <<>>, ws |-> <<>>],
@@ -86,7 +85,6 @@ macro CloseFd(f) {
     closedfds := closedfds \cup {f};
     ncl := ncl + 1;
     if (myargs.some) {
-        gone := [k \in Kinds |-> gone[k] \cup ({f} \cap ready[k] \cap ArgsOf(myargs, k))];
         must := [k \in Kinds |-> must[k] \ {f}]
     };
     ready := [k \in Kinds |-> ready[k] \ {f}]
@@ -238,22 +236,24 @@ s_woke:     \* wait() returns with the lock re-acquired
     goto s_cs;
 s_sel_begin:
     must := [k \in Kinds |-> ReadyNow(k) \cap ArgsOf(myargs, k)];
-    gone := [k \in Kinds |-> {}];
 s_sel_end:  \* select.select(to_read, to_write, to_write) returns or raises EBADF
     either {
-        with (rs \in SeqsBetween(must["r"], (ReadyNow("r") \cap myargs.r) \cup gone["r"]),
-              ws \in SeqsBetween(must["w"], (ReadyNow("w") \cap myargs.w) \cup gone["w"])) {
-            await Len(rs) + Len(ws) > 0;
-            res := [rs |-> rs, ws |-> ws]
+        \* an fd closed while the call is in progress is reported as ready by the kernel (POLLNVAL
+        \* counts for every set), so closed fds of the arguments may or may not appear in the result
+        with (rs \in SeqsBetween(must["r"], (ReadyNow("r") \cup closedfds) \cap myargs.r),
+              ws \in SeqsBetween(must["w"], (ReadyNow("w") \cup closedfds) \cap myargs.w),
+              xs \in SeqsBetween({}, closedfds \cap myargs.w)) {
+            \* xs: the exceptional set (to_write is passed twice); on Linux only closed fds show up
+            \* there; the code appends it to ws, so a closed fd can be listed twice
+            await Len(rs) + Len(ws) + Len(xs) > 0;
+            res := [rs |-> rs, ws |-> ws \o xs]
         };
         must := [k \in Kinds |-> {}];
-        gone := [k \in Kinds |-> {}];
         myargs := NoArgs;
         goto s_post
     } or {      \* OSError(EBADF): an fd of the arguments was closed before the call looked at it
         await (myargs.r \cup myargs.w) \cap closedfds # {};
         must := [k \in Kinds |-> {}];
-        gone := [k \in Kinds |-> {}];
         myargs := NoArgs
     };
 s_poll_begin:   \* select.select([self._waker_r.fileno()], [], [], 0)
@@ -287,8 +287,7 @@ e_loop:
 \* BEGIN TRANSLATION
 VARIABLES pc, mutex, waitset, selArgs, closing, waker, reg, ready, queue, 
           started, sdone, closeCalled, closed, how, hows, chg, envn, ncl, 
-          closedfds, gone, crashed, myargs, must, res, todoR, todoW, cur, ret, 
-          cret
+          closedfds, crashed, myargs, must, res, todoR, todoW, cur, ret, cret
 
 (* define statement *)
 ReadyNow(k) == IF k = "r" THEN ready["r"] \cup (IF waker > 0 THEN {0} ELSE {}) ELSE ready["w"]
@@ -299,8 +298,8 @@ NextW == FirstReg(todoW, reg["w"])
 
 vars == << pc, mutex, waitset, selArgs, closing, waker, reg, ready, queue, 
            started, sdone, closeCalled, closed, how, hows, chg, envn, ncl, 
-           closedfds, gone, crashed, myargs, must, res, todoR, todoW, cur, 
-           ret, cret >>
+           closedfds, crashed, myargs, must, res, todoR, todoW, cur, ret, 
+           cret >>
 
 ProcSet == {1} \cup {2} \cup {3}
 
@@ -323,7 +322,6 @@ Init == (* Global variables *)
         /\ envn = 0
         /\ ncl = 0
         /\ closedfds = {}
-        /\ gone = [k \in Kinds |-> {}]
         /\ crashed = FALSE
         /\ myargs = NoArgs
         /\ must = [k \in Kinds |-> {}]
@@ -347,20 +345,20 @@ m_init == /\ pc[1] = "m_init"
           /\ pc' = [pc EXCEPT ![1] = "m_top"]
           /\ UNCHANGED << mutex, waitset, selArgs, closing, ready, queue, 
                           started, sdone, closeCalled, closed, how, hows, chg, 
-                          envn, ncl, closedfds, gone, crashed, myargs, must, 
-                          res, todoR, todoW, cur, ret, cret >>
+                          envn, ncl, closedfds, crashed, myargs, must, res, 
+                          todoR, todoW, cur, ret, cret >>
 
 m_top == /\ pc[1] = "m_top"
          /\ \/ /\ ~started
                /\ started' = TRUE
                /\ pc' = [pc EXCEPT ![1] = "m_ss_acq"]
-               /\ UNCHANGED <<mutex, reg, ready, queue, closeCalled, how, chg, ncl, closedfds, gone, must, todoR, todoW, ret>>
+               /\ UNCHANGED <<mutex, reg, ready, queue, closeCalled, how, chg, ncl, closedfds, must, todoR, todoW, ret>>
             \/ /\ queue # <<>>
                /\ todoR' = Head(queue).rs
                /\ todoW' = Head(queue).ws
                /\ queue' = Tail(queue)
                /\ pc' = [pc EXCEPT ![1] = "m_run"]
-               /\ UNCHANGED <<mutex, reg, ready, started, closeCalled, how, chg, ncl, closedfds, gone, must, ret>>
+               /\ UNCHANGED <<mutex, reg, ready, started, closeCalled, how, chg, ncl, closedfds, must, ret>>
             \/ /\ chg < MaxChg
                /\ \E op \in {"add", "rem"}:
                     \E k \in Kinds:
@@ -376,16 +374,15 @@ m_top == /\ pc[1] = "m_top"
                                               /\ pc' = [pc EXCEPT ![1] = "m_wk"]
                               ELSE /\ pc' = [pc EXCEPT ![1] = "m_top"]
                                    /\ UNCHANGED << reg, ret >>
-               /\ UNCHANGED <<mutex, ready, queue, started, closeCalled, how, ncl, closedfds, gone, must, todoR, todoW>>
+               /\ UNCHANGED <<mutex, ready, queue, started, closeCalled, how, ncl, closedfds, must, todoR, todoW>>
             \/ /\ ncl < MaxClose
                /\ \E f \in FDs \ (closedfds \cup reg["r"] \cup reg["w"]):
                     /\ closedfds' = (closedfds \cup {f})
                     /\ ncl' = ncl + 1
                     /\ IF myargs.some
-                          THEN /\ gone' = [k \in Kinds |-> gone[k] \cup ({f} \cap ready[k] \cap ArgsOf(myargs, k))]
-                               /\ must' = [k \in Kinds |-> must[k] \ {f}]
+                          THEN /\ must' = [k \in Kinds |-> must[k] \ {f}]
                           ELSE /\ TRUE
-                               /\ UNCHANGED << gone, must >>
+                               /\ must' = must
                     /\ ready' = [k \in Kinds |-> ready[k] \ {f}]
                /\ pc' = [pc EXCEPT ![1] = "m_top"]
                /\ UNCHANGED <<mutex, reg, queue, started, closeCalled, how, chg, todoR, todoW, ret>>
@@ -395,7 +392,7 @@ m_top == /\ pc[1] = "m_top"
                /\ closeCalled' = TRUE
                /\ mutex' = 1
                /\ pc' = [pc EXCEPT ![1] = "m_cl_body"]
-               /\ UNCHANGED <<reg, ready, queue, started, chg, ncl, closedfds, gone, must, todoR, todoW, ret>>
+               /\ UNCHANGED <<reg, ready, queue, started, chg, ncl, closedfds, must, todoR, todoW, ret>>
          /\ UNCHANGED << waitset, selArgs, closing, waker, sdone, closed, hows, 
                          envn, crashed, myargs, res, cur, cret >>
 
@@ -403,7 +400,7 @@ m_run == /\ pc[1] = "m_run"
          /\ \/ /\ cur # NoCb /\ cur.f \in ready[cur.k]
                /\ ready' = [ready EXCEPT ![cur.k] = ready[cur.k] \ {cur.f}]
                /\ pc' = [pc EXCEPT ![1] = "m_run"]
-               /\ UNCHANGED <<mutex, waker, reg, closeCalled, how, chg, ncl, closedfds, gone, must, todoR, todoW, cur, ret, cret>>
+               /\ UNCHANGED <<mutex, waker, reg, closeCalled, how, chg, ncl, closedfds, must, todoR, todoW, cur, ret, cret>>
             \/ /\ cur # NoCb /\ chg < MaxChg
                /\ \E op \in {"add", "rem"}:
                     \E k \in Kinds:
@@ -419,16 +416,15 @@ m_run == /\ pc[1] = "m_run"
                                               /\ pc' = [pc EXCEPT ![1] = "m_wk"]
                               ELSE /\ pc' = [pc EXCEPT ![1] = "m_run"]
                                    /\ UNCHANGED << reg, ret >>
-               /\ UNCHANGED <<mutex, waker, ready, closeCalled, how, ncl, closedfds, gone, must, todoR, todoW, cur, cret>>
+               /\ UNCHANGED <<mutex, waker, ready, closeCalled, how, ncl, closedfds, must, todoR, todoW, cur, cret>>
             \/ /\ cur # NoCb /\ ncl < MaxClose
                /\ \E f \in FDs \ (closedfds \cup reg["r"] \cup reg["w"]):
                     /\ closedfds' = (closedfds \cup {f})
                     /\ ncl' = ncl + 1
                     /\ IF myargs.some
-                          THEN /\ gone' = [k \in Kinds |-> gone[k] \cup ({f} \cap ready[k] \cap ArgsOf(myargs, k))]
-                               /\ must' = [k \in Kinds |-> must[k] \ {f}]
+                          THEN /\ must' = [k \in Kinds |-> must[k] \ {f}]
                           ELSE /\ TRUE
-                               /\ UNCHANGED << gone, must >>
+                               /\ must' = must
                     /\ ready' = [k \in Kinds |-> ready[k] \ {f}]
                /\ pc' = [pc EXCEPT ![1] = "m_run"]
                /\ UNCHANGED <<mutex, waker, reg, closeCalled, how, chg, todoR, todoW, cur, ret, cret>>
@@ -438,7 +434,7 @@ m_run == /\ pc[1] = "m_run"
                /\ mutex' = 1
                /\ cret' = "m_run"
                /\ pc' = [pc EXCEPT ![1] = "m_cl_body"]
-               /\ UNCHANGED <<waker, reg, ready, chg, ncl, closedfds, gone, must, todoR, todoW, cur, ret>>
+               /\ UNCHANGED <<waker, reg, ready, chg, ncl, closedfds, must, todoR, todoW, cur, ret>>
             \/ /\ NextR # 0
                /\ IF todoR[NextR] = 0
                      THEN /\ waker' = (IF waker > RecvMax THEN waker - RecvMax ELSE 0)
@@ -447,20 +443,20 @@ m_run == /\ pc[1] = "m_run"
                           /\ waker' = waker
                /\ todoR' = Drop(todoR, NextR)
                /\ pc' = [pc EXCEPT ![1] = "m_run"]
-               /\ UNCHANGED <<mutex, reg, ready, closeCalled, how, chg, ncl, closedfds, gone, must, todoW, ret, cret>>
+               /\ UNCHANGED <<mutex, reg, ready, closeCalled, how, chg, ncl, closedfds, must, todoW, ret, cret>>
             \/ /\ NextR = 0 /\ NextW # 0
                /\ cur' = [k |-> "w", f |-> todoW[NextW]]
                /\ todoR' = <<>>
                /\ todoW' = Drop(todoW, NextW)
                /\ pc' = [pc EXCEPT ![1] = "m_run"]
-               /\ UNCHANGED <<mutex, waker, reg, ready, closeCalled, how, chg, ncl, closedfds, gone, must, ret, cret>>
+               /\ UNCHANGED <<mutex, waker, reg, ready, closeCalled, how, chg, ncl, closedfds, must, ret, cret>>
             \/ /\ NextR = 0 /\ NextW = 0 /\ mutex = 0
                /\ cur' = NoCb
                /\ todoR' = <<>>
                /\ todoW' = <<>>
                /\ mutex' = 1
                /\ pc' = [pc EXCEPT ![1] = "m_ss_body"]
-               /\ UNCHANGED <<waker, reg, ready, closeCalled, how, chg, ncl, closedfds, gone, must, ret, cret>>
+               /\ UNCHANGED <<waker, reg, ready, closeCalled, how, chg, ncl, closedfds, must, ret, cret>>
          /\ UNCHANGED << waitset, selArgs, closing, queue, started, sdone, 
                          closed, hows, envn, crashed, myargs, res >>
 
@@ -477,7 +473,7 @@ m_wk == /\ pc[1] = "m_wk"
                    /\ pc' = [pc EXCEPT ![1] = "m_run"]
         /\ UNCHANGED << mutex, waitset, selArgs, closing, reg, ready, queue, 
                         started, sdone, closeCalled, closed, how, hows, chg, 
-                        envn, ncl, closedfds, gone, crashed, myargs, must, res, 
+                        envn, ncl, closedfds, crashed, myargs, must, res, 
                         todoR, todoW, cur, cret >>
 
 m_ss_acq == /\ pc[1] = "m_ss_acq"
@@ -486,8 +482,8 @@ m_ss_acq == /\ pc[1] = "m_ss_acq"
             /\ pc' = [pc EXCEPT ![1] = "m_ss_body"]
             /\ UNCHANGED << waitset, selArgs, closing, waker, reg, ready, 
                             queue, started, sdone, closeCalled, closed, how, 
-                            hows, chg, envn, ncl, closedfds, gone, crashed, 
-                            myargs, must, res, todoR, todoW, cur, ret, cret >>
+                            hows, chg, envn, ncl, closedfds, crashed, myargs, 
+                            must, res, todoR, todoW, cur, ret, cret >>
 
 m_ss_body == /\ pc[1] = "m_ss_body"
              /\ selArgs' = [some |-> TRUE, r |-> reg["r"], w |-> reg["w"]]
@@ -495,16 +491,16 @@ m_ss_body == /\ pc[1] = "m_ss_body"
              /\ pc' = [pc EXCEPT ![1] = "m_ss_rel"]
              /\ UNCHANGED << mutex, closing, waker, reg, ready, queue, started, 
                              sdone, closeCalled, closed, how, hows, chg, envn, 
-                             ncl, closedfds, gone, crashed, myargs, must, res, 
-                             todoR, todoW, cur, ret, cret >>
+                             ncl, closedfds, crashed, myargs, must, res, todoR, 
+                             todoW, cur, ret, cret >>
 
 m_ss_rel == /\ pc[1] = "m_ss_rel"
             /\ mutex' = 0
             /\ pc' = [pc EXCEPT ![1] = "m_top"]
             /\ UNCHANGED << waitset, selArgs, closing, waker, reg, ready, 
                             queue, started, sdone, closeCalled, closed, how, 
-                            hows, chg, envn, ncl, closedfds, gone, crashed, 
-                            myargs, must, res, todoR, todoW, cur, ret, cret >>
+                            hows, chg, envn, ncl, closedfds, crashed, myargs, 
+                            must, res, todoR, todoW, cur, ret, cret >>
 
 m_cl_body == /\ pc[1] = "m_cl_body"
              /\ closing' = TRUE
@@ -512,16 +508,16 @@ m_cl_body == /\ pc[1] = "m_cl_body"
              /\ pc' = [pc EXCEPT ![1] = "m_cl_rel"]
              /\ UNCHANGED << mutex, selArgs, waker, reg, ready, queue, started, 
                              sdone, closeCalled, closed, how, hows, chg, envn, 
-                             ncl, closedfds, gone, crashed, myargs, must, res, 
-                             todoR, todoW, cur, ret, cret >>
+                             ncl, closedfds, crashed, myargs, must, res, todoR, 
+                             todoW, cur, ret, cret >>
 
 m_cl_rel == /\ pc[1] = "m_cl_rel"
             /\ mutex' = 0
             /\ pc' = [pc EXCEPT ![1] = "m_cl_wk"]
             /\ UNCHANGED << waitset, selArgs, closing, waker, reg, ready, 
                             queue, started, sdone, closeCalled, closed, how, 
-                            hows, chg, envn, ncl, closedfds, gone, crashed, 
-                            myargs, must, res, todoR, todoW, cur, ret, cret >>
+                            hows, chg, envn, ncl, closedfds, crashed, myargs, 
+                            must, res, todoR, todoW, cur, ret, cret >>
 
 m_cl_wk == /\ pc[1] = "m_cl_wk"
            /\ \/ /\ waker < MaxW
@@ -536,8 +532,8 @@ m_cl_wk == /\ pc[1] = "m_cl_wk"
                  ELSE /\ pc' = [pc EXCEPT ![1] = "m_cl_join"]
            /\ UNCHANGED << mutex, waitset, selArgs, closing, reg, ready, queue, 
                            started, sdone, closeCalled, closed, how, hows, chg, 
-                           envn, ncl, closedfds, gone, crashed, myargs, must, 
-                           res, todoR, todoW, cur, ret, cret >>
+                           envn, ncl, closedfds, crashed, myargs, must, res, 
+                           todoR, todoW, cur, ret, cret >>
 
 m_cl_join == /\ pc[1] = "m_cl_join"
              /\ sdone
@@ -546,9 +542,8 @@ m_cl_join == /\ pc[1] = "m_cl_join"
                    ELSE /\ pc' = [pc EXCEPT ![1] = "m_cl_rm"]
              /\ UNCHANGED << mutex, waitset, selArgs, closing, waker, reg, 
                              ready, queue, started, sdone, closeCalled, closed, 
-                             how, hows, chg, envn, ncl, closedfds, gone, 
-                             crashed, myargs, must, res, todoR, todoW, cur, 
-                             ret, cret >>
+                             how, hows, chg, envn, ncl, closedfds, crashed, 
+                             myargs, must, res, todoR, todoW, cur, ret, cret >>
 
 m_cl_rm == /\ pc[1] = "m_cl_rm"
            /\ reg' = [reg EXCEPT !["r"] = reg["r"] \ {0}]
@@ -560,8 +555,8 @@ m_cl_rm == /\ pc[1] = "m_cl_rm"
            /\ pc' = [pc EXCEPT ![1] = "m_cl_end"]
            /\ UNCHANGED << mutex, waitset, selArgs, closing, ready, queue, 
                            started, sdone, closeCalled, closed, how, hows, chg, 
-                           envn, ncl, closedfds, gone, crashed, myargs, must, 
-                           res, todoR, todoW, cur, ret, cret >>
+                           envn, ncl, closedfds, crashed, myargs, must, res, 
+                           todoR, todoW, cur, ret, cret >>
 
 m_cl_end == /\ pc[1] = "m_cl_end"
             /\ closed' = TRUE
@@ -572,8 +567,8 @@ m_cl_end == /\ pc[1] = "m_cl_end"
                        /\ pc' = [pc EXCEPT ![1] = "m_run"]
             /\ UNCHANGED << mutex, waitset, selArgs, closing, waker, reg, 
                             ready, queue, started, sdone, closeCalled, how, 
-                            hows, chg, envn, ncl, closedfds, gone, crashed, 
-                            myargs, must, res, todoR, todoW, cur, ret >>
+                            hows, chg, envn, ncl, closedfds, crashed, myargs, 
+                            must, res, todoR, todoW, cur, ret >>
 
 main == m_init \/ m_top \/ m_run \/ m_wk \/ m_ss_acq \/ m_ss_body
            \/ m_ss_rel \/ m_cl_body \/ m_cl_rel \/ m_cl_wk \/ m_cl_join
@@ -585,8 +580,8 @@ s_acq == /\ pc[2] = "s_acq"
          /\ pc' = [pc EXCEPT ![2] = "s_cs"]
          /\ UNCHANGED << waitset, selArgs, closing, waker, reg, ready, queue, 
                          started, sdone, closeCalled, closed, how, hows, chg, 
-                         envn, ncl, closedfds, gone, crashed, myargs, must, 
-                         res, todoR, todoW, cur, ret, cret >>
+                         envn, ncl, closedfds, crashed, myargs, must, res, 
+                         todoR, todoW, cur, ret, cret >>
 
 s_cs == /\ pc[2] = "s_cs"
         /\ IF ~selArgs.some /\ ~closing
@@ -607,8 +602,8 @@ s_cs == /\ pc[2] = "s_cs"
                    /\ UNCHANGED waitset
         /\ UNCHANGED << closing, waker, reg, ready, queue, started, 
                         closeCalled, closed, how, hows, chg, envn, ncl, 
-                        closedfds, gone, crashed, must, res, todoR, todoW, cur, 
-                        ret, cret >>
+                        closedfds, crashed, must, res, todoR, todoW, cur, ret, 
+                        cret >>
 
 s_woke == /\ pc[2] = "s_woke"
           /\ 2 \notin waitset /\ mutex = 0
@@ -616,12 +611,11 @@ s_woke == /\ pc[2] = "s_woke"
           /\ pc' = [pc EXCEPT ![2] = "s_cs"]
           /\ UNCHANGED << waitset, selArgs, closing, waker, reg, ready, queue, 
                           started, sdone, closeCalled, closed, how, hows, chg, 
-                          envn, ncl, closedfds, gone, crashed, myargs, must, 
-                          res, todoR, todoW, cur, ret, cret >>
+                          envn, ncl, closedfds, crashed, myargs, must, res, 
+                          todoR, todoW, cur, ret, cret >>
 
 s_sel_begin == /\ pc[2] = "s_sel_begin"
                /\ must' = [k \in Kinds |-> ReadyNow(k) \cap ArgsOf(myargs, k)]
-               /\ gone' = [k \in Kinds |-> {}]
                /\ pc' = [pc EXCEPT ![2] = "s_sel_end"]
                /\ UNCHANGED << mutex, waitset, selArgs, closing, waker, reg, 
                                ready, queue, started, sdone, closeCalled, 
@@ -630,17 +624,16 @@ s_sel_begin == /\ pc[2] = "s_sel_begin"
                                cret >>
 
 s_sel_end == /\ pc[2] = "s_sel_end"
-             /\ \/ /\ \E rs \in SeqsBetween(must["r"], (ReadyNow("r") \cap myargs.r) \cup gone["r"]):
-                        \E ws \in SeqsBetween(must["w"], (ReadyNow("w") \cap myargs.w) \cup gone["w"]):
-                          /\ Len(rs) + Len(ws) > 0
-                          /\ res' = [rs |-> rs, ws |-> ws]
+             /\ \/ /\ \E rs \in SeqsBetween(must["r"], (ReadyNow("r") \cup closedfds) \cap myargs.r):
+                        \E ws \in SeqsBetween(must["w"], (ReadyNow("w") \cup closedfds) \cap myargs.w):
+                          \E xs \in SeqsBetween({}, closedfds \cap myargs.w):
+                            /\ Len(rs) + Len(ws) + Len(xs) > 0
+                            /\ res' = [rs |-> rs, ws |-> ws \o xs]
                    /\ must' = [k \in Kinds |-> {}]
-                   /\ gone' = [k \in Kinds |-> {}]
                    /\ myargs' = NoArgs
                    /\ pc' = [pc EXCEPT ![2] = "s_post"]
                 \/ /\ (myargs.r \cup myargs.w) \cap closedfds # {}
                    /\ must' = [k \in Kinds |-> {}]
-                   /\ gone' = [k \in Kinds |-> {}]
                    /\ myargs' = NoArgs
                    /\ pc' = [pc EXCEPT ![2] = "s_poll_begin"]
                    /\ res' = res
@@ -655,8 +648,8 @@ s_poll_begin == /\ pc[2] = "s_poll_begin"
                 /\ UNCHANGED << mutex, waitset, selArgs, closing, waker, reg, 
                                 ready, queue, started, sdone, closeCalled, 
                                 closed, how, hows, chg, envn, ncl, closedfds, 
-                                gone, crashed, myargs, must, res, todoR, todoW, 
-                                cur, ret, cret >>
+                                crashed, myargs, must, res, todoR, todoW, cur, 
+                                ret, cret >>
 
 s_poll_end == /\ pc[2] = "s_poll_end"
               /\ IF waker > 0
@@ -669,8 +662,8 @@ s_poll_end == /\ pc[2] = "s_poll_end"
                          /\ res' = res
               /\ UNCHANGED << mutex, waitset, selArgs, closing, waker, reg, 
                               ready, queue, started, closeCalled, closed, how, 
-                              hows, chg, envn, ncl, closedfds, gone, myargs, 
-                              must, todoR, todoW, cur, ret, cret >>
+                              hows, chg, envn, ncl, closedfds, myargs, must, 
+                              todoR, todoW, cur, ret, cret >>
 
 s_post == /\ pc[2] = "s_post"
           /\ queue' = Append(queue, res)
@@ -678,8 +671,8 @@ s_post == /\ pc[2] = "s_post"
           /\ pc' = [pc EXCEPT ![2] = "s_acq"]
           /\ UNCHANGED << mutex, waitset, selArgs, closing, waker, reg, ready, 
                           started, sdone, closeCalled, closed, how, hows, chg, 
-                          envn, ncl, closedfds, gone, crashed, myargs, must, 
-                          todoR, todoW, cur, ret, cret >>
+                          envn, ncl, closedfds, crashed, myargs, must, todoR, 
+                          todoW, cur, ret, cret >>
 
 sel == s_acq \/ s_cs \/ s_woke \/ s_sel_begin \/ s_sel_end \/ s_poll_begin
           \/ s_poll_end \/ s_post
@@ -694,8 +687,8 @@ e_loop == /\ pc[3] = "e_loop"
           /\ pc' = [pc EXCEPT ![3] = "e_loop"]
           /\ UNCHANGED << mutex, waitset, selArgs, closing, waker, reg, queue, 
                           started, sdone, closeCalled, closed, how, hows, chg, 
-                          ncl, closedfds, gone, crashed, myargs, must, res, 
-                          todoR, todoW, cur, ret, cret >>
+                          ncl, closedfds, crashed, myargs, must, res, todoR, 
+                          todoW, cur, ret, cret >>
 
 env == e_loop
 
@@ -751,7 +744,7 @@ NoUnreadyDuringSelect ==
 (* no lost registration: the selector thread never sleeps in select on a stale fd set with no
    wake-up byte pending while the main thread is idle *)
 SelectBlocked == /\ pc[2] = "s_sel_end"
-                 /\ \A k \in Kinds : ReadyNow(k) \cap ArgsOf(myargs, k) = {} /\ gone[k] = {}
+                 /\ \A k \in Kinds : ReadyNow(k) \cap ArgsOf(myargs, k) = {}
                  /\ (myargs.r \cup myargs.w) \cap closedfds = {}
 (* the EBADF race: whenever the selector thread may meet a closed fd (the application removed it
    and then closed it) the wake-up byte of that removal is still unread, so the fallback poll of
